@@ -69,6 +69,8 @@ for prop0 in sorted(os.listdir(ST)):
                                               % (conf["suite_patched"]["passed"], conf["suite_patched"]["failed_tests"]),
             },
             "checks_run_against_it": checks,
+            "checks_run_where": ("private copy: scratch worktree of /repo HEAD %s + copy of /verif pointing at it (tools/seeded_run_priv.py); /repo itself untouched"
+                                 % res.get("head")) if res and res.get("private_copy") else "/repo with the patch applied and reverted afterwards (tools/seeded_run.py)",
             "caught_by": caught,
             "history": hist,
             "how_to_replay": "git -C /repo apply seeded/%s/patch.diff && ./check %s --tier quick ; git -C /repo apply -R seeded/%s/patch.diff" % (sid, prop, sid),
